@@ -263,12 +263,21 @@ func runC02(c *Ctx) {
 				rpc = call
 			}
 			if fnIs(f, "rtpconn", "rtpDownTrack", "write") {
-				if rpc != nil { // the write after the rewrite
+				// the write of the rewritten bytes is the one that does not
+				// pass Write's own parameter on
+				isParam := false
+				if id, ok := unparen(call.Args[0]).(*ast.Ident); ok && info.ObjectOf(id) == buf {
+					isParam = true
+				}
+				if !isParam {
 					wrc = call
 				}
 			}
 			return true
 		})
+		if rpc != nil && wrc != nil && !ff.ReachableFrom(rpc, wrc) {
+			wrc = nil
+		}
 		if rpc == nil || wrc == nil {
 			c.Bad("R2.3", "rewrite then write", wr.Pos(), "Write no longer calls RewritePacket followed by down.write")
 		} else {
